@@ -654,7 +654,8 @@ INVALID_DOCS = {
 VARIABLE_CASES = [
     # (text, payloads)
     ("query Q($x: Int!) { arg(x: $x) }",
-     [{}, {"x": None}, {"x": "abc"}, {"x": 1.5}, {"x": 2 ** 40}, {"x": [1]}, {"x": {"a": 1}}, {"x": 5}, {"x": True}]),
+     [{}, {"x": None}, {"x": "abc"}, {"x": 1.5}, {"x": 2 ** 40}, {"x": [1]}, {"x": {"a": 1}}, {"x": 5}, {"x": True},
+      {"x": {"$float": "inf"}}, {"x": {"$float": "-inf"}}, {"x": {"$float": "nan"}}, {"x": 1e300}, {"x": 3.0}]),
     ("query Q($i: Inp) { arg(x: 1, inp: $i) }",
      [{"i": {}}, {"i": {"a": "x"}}, {"i": {"a": 1, "b": [{"a": None}, {"zz": 1}]}}, {"i": 3},
       {"i": {"a": 1, "zzz": 2}}, {"i": {"a": 1, "f": {"$float": "inf"}}}, {"i": {"a": 1}}, {"i": None}]),
